@@ -79,6 +79,7 @@ def run(ctx):
     import unified_planning as up
     from unified_planning.io import PDDLWriter, PDDLReader
     warnings.simplefilter("ignore")
+    io.restore_tracebacks()
     ok_proofs = ctx.check_props(extra=["theories/Corr/Corr_C18.v"])
     rng = ctx.rng
     nprob = 30 if ctx.quick else 300
@@ -124,7 +125,7 @@ def run(ctx):
         for rname, kw in (("up", dict(force_up_pddl_reader=True)), ("ai", dict(force_ai_planning_reader=True))):
             reader = PDDLReader(**kw)
             try:
-                Q = reader.parse_problem_string(dom, prob)
+                Q = io.parse_pddl(reader, dom, prob)
             except Exception as e:  # noqa
                 site = io.exc_site(e)
                 k = "%s: %s" % (type(e).__name__, " ".join(str(e).split())[:60])
